@@ -345,9 +345,27 @@ def run_one(seed, tape, opts):
         if dfr is not None:
             s["cdef_state"] = "pending"
 
+            chain = exp is not None and exp > 0 and \
+                tape.choose(3, "chain") == 0
+
             def ok(v):
                 s["cdef_state"] = "ok"
                 s["cdef_value"] = v
+                if chain and rx_end[d].alive:
+                    # the application goes straight on, from inside the
+                    # completion callback, to the next part of the stream
+                    # (back-to-back files): a second consumer, no byte budget
+                    col2 = Collector()
+                    try:
+                        rx.connectConsumer(col2)
+                        s["consumer2"] = col2
+                        sim.note("probe.second_consumer_attached_in_callback")
+                    except Exception as e:
+                        V("C06.second_consumer_refused", "the receiver "
+                          "obtains exactly the records sent (consumer mode: "
+                          "one file after the other on one connection)",
+                          "%s: connectConsumer() called from the first "
+                          "consumer's completion callback raised %r" % (d, e))
 
             def bad(f):
                 s["cdef_state"] = "failed"
@@ -389,7 +407,8 @@ def run_one(seed, tape, opts):
                 evs.append(("send:" + d, lambda d=d: send_next(d)))
             pending = sum(1 for x in s["reads"] if x["state"] == "pending")
             if s["mode"] == "read" or (s["attached"] and
-                                       s["cdef_state"] == "ok"):
+                                       s["cdef_state"] == "ok" and
+                                       s.get("consumer2") is None):
                 if pending < 3 and len(s["reads"]) < len(recs[d]) + 2:
                     evs.append(("read:" + d, lambda d=d: issue_read(d)))
             elif not s["attached"]:
@@ -410,6 +429,8 @@ def run_one(seed, tape, opts):
             if s.get("exp") == 0 and cr[:1] == [b""]:
                 cr = cr[1:]    # the documented empty kick record
             out.extend(cr)
+            if s.get("consumer2") is not None:
+                out.extend(s["consumer2"].records)
             if s["expected_n"] is not None and s["expected_n"] and \
                     s["cdef_state"] != "ok" and False:
                 pass
